@@ -16,6 +16,7 @@
 //
 //	create  <a|i|d> <c|e> <hexspec> <offsetSec> <valid>
 //	update  <id> <a|i|-> (<c|e> <hexspec> <offsetSec> <valid> | -)
+//	optupd  <id> <hexEvery|_> <hexCron|_> <offsetSec|_> <valid>   OPTIONS-ONLY patch: TaskUpdate{Options:{Every,Cron,Offset}}
 //	delete  <id>
 //	restart <L|N|M> <pageSize>        new scheduler+coordinator, then notify-of-existing
 //	cancel  <id> <run>  |  force <id> <scheduledFor>  |  retry <id> <run>
@@ -96,6 +97,15 @@ func parseFlux(flux string) (options.Options, error) {
 		return o, errInvalid
 	}
 	return o, nil
+}
+
+// encodeFlux is the inverse of parseFlux for validated options
+func encodeFlux(o options.Options, off time.Duration) string {
+	offS := strconv.FormatInt(int64(off/time.Second), 10)
+	if o.Cron != "" {
+		return "c\x00" + o.Cron + "\x00" + offS
+	}
+	return "e\x00" + o.Every.String() + "\x00" + offS
 }
 
 func cp(t *taskmodel.Task) *taskmodel.Task { c := *t; return &c }
@@ -196,15 +206,42 @@ func (s *fakeSvc) UpdateTask(ctx context.Context, id platform.ID, upd taskmodel.
 	}
 	t := cp(old)
 	updatedAt := time.Now().UTC()
-	if upd.Flux != nil {
-		o, err := parseFlux(*upd.Flux)
+	// kv.updateTask: `if !upd.Options.IsZero() || upd.Flux != nil { upd.UpdateFlux(...); options.FromScriptAST(...) }`.
+	// UpdateFlux edits the task option of the Flux AST (every replaces cron and vice versa, a zero
+	// offset removes the offset, both every and cron is an error); here the same patch is applied to
+	// the options of the mini format and validated by the real options.Options.Validate.
+	if !upd.Options.IsZero() || upd.Flux != nil {
+		src := t.Flux
+		if upd.Flux != nil && *upd.Flux != "" {
+			src = *upd.Flux
+		}
+		o, err := parseFlux(src)
 		if err != nil {
 			return nil, err
 		}
-		t.Flux = *upd.Flux
+		if !upd.Options.Every.IsZero() && upd.Options.Cron != "" {
+			return nil, errInvalid // "cannot specify both cron and every"
+		}
+		if !upd.Options.Every.IsZero() {
+			o.Every, o.Cron = upd.Options.Every, ""
+		}
+		if upd.Options.Cron != "" {
+			o.Cron, o.Every = upd.Options.Cron, options.Duration{}
+		}
+		if upd.Options.Offset != nil {
+			if upd.Options.Offset.IsZero() {
+				o.Offset = nil
+			} else {
+				o.Offset = upd.Options.Offset
+			}
+		}
+		if err := o.Validate(); err != nil {
+			return nil, errInvalid
+		}
 		if err := applyOpts(t, o); err != nil {
 			return nil, err
 		}
+		t.Flux = encodeFlux(o, t.Offset)
 		t.UpdatedAt = updatedAt
 	}
 	if upd.Status != nil && t.Status != *upd.Status {
@@ -498,6 +535,46 @@ func (c *runner) Op(t []string) string {
 		}
 		_, err := c.mw.UpdateTask(ctx, platform.ID(id), upd)
 		res = errName(err)
+	case "optupd":
+		if len(t) != 6 {
+			return bad
+		}
+		id, ok := num(t[1])
+		if !ok || (t[5] != "0" && t[5] != "1") {
+			return bad
+		}
+		var upd taskmodel.TaskUpdate
+		if t[2] != "_" {
+			b, err := h.UnHex(t[2])
+			if err != nil {
+				return bad
+			}
+			if len(b) == 0 {
+				return bad
+			}
+			if err := upd.Options.Every.Parse(string(b)); err != nil {
+				return bad // not expressible as a TaskUpdate (the HTTP layer rejects it)
+			}
+		}
+		if t[3] != "_" {
+			b, err := h.UnHex(t[3])
+			if err != nil || len(b) == 0 {
+				return bad
+			}
+			upd.Options.Cron = string(b)
+		}
+		if t[4] != "_" {
+			if _, err := strconv.ParseInt(t[4], 10, 64); err != nil {
+				return bad
+			}
+			d := &options.Duration{}
+			if err := d.Parse(t[4] + "s"); err != nil {
+				return bad
+			}
+			upd.Options.Offset = d
+		}
+		_, err := c.mw.UpdateTask(ctx, platform.ID(id), upd)
+		res = errName(err)
 	case "delete":
 		if len(t) != 2 {
 			return bad
@@ -606,6 +683,8 @@ func gen(r *h.Rand, tier string, emit func([]string)) {
 		"update 1 i c " + h.HexS("0 * * * *") + " 30 1", "update 1 a e " + h.HexS("1d") + " 0 1",
 		"update 2 a -", "update 2 i -",
 		"delete 1", "delete 2", "restart L 1", "restart N 2",
+		"optupd 1 " + h.HexS("5m") + " _ _ 1", "optupd 1 _ " + h.HexS("*/5 * * * *") + " _ 1", "optupd 1 _ _ 7 1",
+		"optupd 2 " + h.HexS("2h") + " _ 0 1",
 	}
 	L := 3
 	if tier == "thorough" {
@@ -674,6 +753,28 @@ func gen(r *h.Rand, tier string, emit func([]string)) {
 				} else {
 					ops = append(ops, fmt.Sprintf("update %d %s -", pickID(), st))
 				}
+			case x < 72:
+				// options-only patches: every / cron / offset alone and combined, a few rejected ones
+				ev, cr, off, valid := "_", "_", "_", true
+				switch r.Intn(8) {
+				case 0:
+					ev = h.HexS(h.Pick(r, []string{"5m", "2h", "30s", "1d"}))
+				case 1:
+					cr = h.HexS(h.Pick(r, []string{"*/5 * * * *", "0 0 * * *", "@daily"}))
+				case 2:
+					off = strconv.Itoa(r.Intn(4) * 15)
+				case 3:
+					ev, off = h.HexS(h.Pick(r, []string{"5m", "45s"})), strconv.Itoa(r.Intn(3)*20)
+				case 4:
+					cr, off = h.HexS("30 * * * *"), strconv.Itoa(10+r.Intn(50))
+				case 5:
+					ev, cr, valid = h.HexS("5m"), h.HexS("* * * * *"), false // both: rejected
+				case 6:
+					ev, valid = h.HexS("500ms"), false // below one second: rejected
+				default:
+					cr, valid = h.HexS("not a cron"), false
+				}
+				ops = append(ops, fmt.Sprintf("optupd %d %s %s %s %s", pickID(), ev, cr, off, h.B(valid)))
 			case x < 80:
 				ops = append(ops, fmt.Sprintf("delete %d", pickID()))
 			case x < 88:
@@ -691,7 +792,8 @@ func gen(r *h.Rand, tier string, emit func([]string)) {
 	// 3. malformed stream
 	emit([]string{"create", "create x e 316d 0 1", "create a q 316d 0 1", "create a e zz 0 1", "update 1", "update x a -",
 		"update 1 q -", "update 1 a e 316d", "delete", "delete -1", "restart Q 1", "restart L 0", "frobnicate 1", "force 1 x",
-		"create a e 316d 0 1", "update 1 d -"})
+		"create a e 316d 0 1", "update 1 d -", "optupd 1 _ _", "optupd x _ _ _ 1", "optupd 1 zz _ _ 1", "optupd 1 _ _ q 1",
+		"optupd 1 _ _ _ 2"})
 }
 
 func main() {
